@@ -41,38 +41,57 @@ Proof.
 Qed.
 
 Definition guarded_call (ag : bool) (c : call) : Prop := is_affix_call c = false \/ ag = true.
+Definition updb_ok (ug : bool) (c : call) : Prop := is_updb_call c = false \/ ug = true.
 
 (* RDONLY: every mutating call is refused with GD_E_ACCMODE and nothing changes *)
-Lemma rdonly_inert_l : forall ag s c, rw s = false -> guarded_call ag c -> exec ag s c = (RAccMode, s).
+Lemma rdonly_inert_l : forall ag ug s c, rw s = false -> guarded_call ag c -> exec ag ug s c = (RAccMode, s).
 Proof.
-  intros ag s c Hr Hg. destruct c; simpl; rewrite Hr; simpl; try reflexivity.
+  intros ag ug s c Hr Hg. destruct c; simpl; rewrite Hr; simpl; try reflexivity.
   destruct Hg as [Hg|Hg]; [discriminate|]. subst. reflexivity.
+Qed.
+
+Lemma bump_all_ok : forall s users s0, unchanged_protected s s0 ->
+  existsb (fun u => p_fmt (prot_of s u)) users = false ->
+  unchanged_protected s (mkSt (rw s0) (prots s0) (bump_all (meta s0) users) (data s0)).
+Proof.
+  intros s users. induction users as [|u r IH]; intros s0 H He.
+  - destruct s0. exact H.
+  - simpl in He. apply orb_false_iff in He. destruct He as [Hu Hr].
+    unfold bump_all. simpl. 
+    specialize (IH (bump_meta s0 u) (bump_meta_ok s s0 u H Hu) Hr).
+    exact IH.
 Qed.
 
 (* /PROTECT: whatever the call, protected metadata and protected data are unchanged, and
    a call whose region meets a protected part is refused with GD_E_PROTECTED *)
-Lemma protect_respected_l : forall ag s c, is_protect_call c = false -> guarded_call ag c ->
-  unchanged_protected s (snd (exec ag s c)).
+Lemma protect_respected_l : forall ag ug s c, is_protect_call c = false -> guarded_call ag c -> updb_ok ug c ->
+  unchanged_protected s (snd (exec ag ug s c)).
 Proof.
-  intros ag s c Hnp Hg.
+  intros ag ug s c Hnp Hg Hu.
   destruct c; simpl in *; try discriminate;
-  repeat match goal with
+  try (repeat match goal with
   | |- context [if ?x then _ else _] => destruct x eqn:?; simpl
   | |- context [match ?x with _ => _ end] => destruct x eqn:?; simpl
   end; try apply unchanged_refl;
   repeat match goal with
   | H : (_ || _) = false |- _ => apply orb_false_iff in H; destruct H
-  | H : (_ && _) = false |- _ => idtac
   end;
-  repeat (first [apply bump_data_ok | apply bump_meta_ok]); try apply unchanged_refl; auto.
-  all: try (destruct Hg as [Hg|Hg]; [discriminate|subst; simpl in *; try discriminate]).
-  all: try (repeat match goal with H : (_ || _) = false |- _ => apply orb_false_iff in H; destruct H end; auto).
-  all: simpl in *; repeat match goal with H : (_ || _) = false |- _ => apply orb_false_iff in H; destruct H end; auto.
+  repeat (first [apply bump_data_ok | apply bump_meta_ok]); try apply unchanged_refl; auto;
+  try (destruct Hg as [Hg|Hg]; [discriminate|subst; simpl in *; try discriminate]);
+  try (repeat match goal with H : (_ || _) = false |- _ => apply orb_false_iff in H; destruct H end; auto);
+  simpl in *; repeat match goal with H : (_ || _) = false |- _ => apply orb_false_iff in H; destruct H end; auto; fail).
+  (* CRenameUpdb *)
+  destruct Hu as [Hu|Hu]; [discriminate|subst ug].
+  destruct (negb (rw s)) eqn:E1; simpl; [apply unchanged_refl|].
+  destruct (p_fmt (prot_of s g)) eqn:E2; simpl; [apply unchanged_refl|].
+  destruct (existsb (fun u => p_fmt (prot_of s u)) users) eqn:E3; simpl; [apply unchanged_refl|].
+  pose proof (bump_all_ok s users (bump_meta s g) (bump_meta_ok s s g (unchanged_refl s) E2) E3) as H.
+  exact H.
 Qed.
 
-Lemma refused_when_protected_put : forall ag s f g, rw s = true -> put_leaf f = Some g ->
-  p_dat (prot_of s g) = true -> exec ag s (CPutData f) = (RProtected, s).
-Proof. intros ag s f g Hr Hl Hp. simpl. rewrite Hr, Hl, Hp. reflexivity. Qed.
+Lemma refused_when_protected_put : forall ag ug s f g, rw s = true -> put_leaf f = Some g ->
+  p_dat (prot_of s g) = true -> exec ag ug s (CPutData f) = (RProtected, s).
+Proof. intros ag ug s f g Hr Hl Hp. simpl. rewrite Hr, Hl, Hp. reflexivity. Qed.
 
 (* a chain of writable derived fields of any depth, each defined in any fragment, still lands in the RAW leaf's fragment *)
 Fixpoint chain (frags : list nat) (leaf : field) : field :=
@@ -84,26 +103,34 @@ Fixpoint chain (frags : list nat) (leaf : field) : field :=
 Lemma put_leaf_chain : forall frags g, put_leaf (chain frags (FRaw g)) = Some g.
 Proof. induction frags as [|h r IH]; intros g; simpl; auto. Qed.
 
-Lemma chain_write_refused : forall ag s frags g, rw s = true -> p_dat (prot_of s g) = true ->
-  exec ag s (CPutData (chain frags (FRaw g))) = (RProtected, s).
+Lemma chain_write_refused : forall ag ug s frags g, rw s = true -> p_dat (prot_of s g) = true ->
+  exec ag ug s (CPutData (chain frags (FRaw g))) = (RProtected, s).
 Proof. intros. eapply refused_when_protected_put; eauto. apply put_leaf_chain. Qed.
 
-(* without the guards (affix calls as they are in the pinned tree) both statements fail *)
+(* without the guards both statements fail *)
 Definition s_ro : st := mkSt false [mkProt false false; mkProt false false] [0; 0] [0; 0].
 Definition s_pf : st := mkSt true [mkProt true false; mkProt false false] [0; 0] [0; 0].
 
-Lemma rdonly_inert_refuted_unguarded : exists s c, rw s = false /\ exec false s c <> (RAccMode, s).
+Lemma rdonly_inert_refuted_unguarded : exists s c, rw s = false /\ exec false true s c <> (RAccMode, s).
 Proof. exists s_ro, (CAffix 1 0). split; [reflexivity|]. vm_compute. discriminate. Qed.
 
 Lemma protect_respected_refuted_unguarded :
-  exists s c, is_protect_call c = false /\ ~ unchanged_protected s (snd (exec false s c)).
+  exists s c, is_protect_call c = false /\ ~ unchanged_protected s (snd (exec false true s c)).
 Proof.
   exists s_pf, (CAffix 1 0). split; [reflexivity|].
   intros [Hm _]. specialize (Hm 0 eq_refl). vm_compute in Hm. discriminate.
 Qed.
 
-Example guarded_hyp_satisfiable : guarded_call gen_affix_guarded (CPutData (FRaw 0)).
-Proof. left. reflexivity. Qed.
+(* gd_rename with GD_REN_UPDB as it is: a field of unprotected fragment 1 used by a field of format-protected fragment 0 *)
+Lemma protect_respected_refuted_updb :
+  exists s c, is_protect_call c = false /\ is_affix_call c = false /\ ~ unchanged_protected s (snd (exec true false s c)).
+Proof.
+  exists s_pf, (CRenameUpdb 1 [0]). split; [reflexivity|]. split; [reflexivity|].
+  intros [Hm _]. specialize (Hm 0 eq_refl). vm_compute in Hm. discriminate.
+Qed.
+
+Example guarded_hyp_satisfiable : guarded_call gen_affix_guarded (CPutData (FRaw 0)) /\ updb_ok gen_updb_guarded (CPutData (FRaw 0)).
+Proof. split; left; reflexivity. Qed.
 
 (* the frozen tree: the affix calls reach an access-mode and a protection test *)
 Lemma gen_affix_guarded_true : gen_affix_guarded = true.
@@ -112,5 +139,6 @@ Proof. vm_compute. reflexivity. Qed.
 Lemma rdonly_inert_gen : forall s c, rw s = false -> gen_exec s c = (RAccMode, s).
 Proof. intros s c H. apply rdonly_inert_l; [exact H|right; exact gen_affix_guarded_true]. Qed.
 
-Lemma protect_respected_gen : forall s c, is_protect_call c = false -> unchanged_protected s (snd (gen_exec s c)).
-Proof. intros s c H. apply protect_respected_l; [exact H|right; exact gen_affix_guarded_true]. Qed.
+Lemma protect_respected_gen : forall s c, is_protect_call c = false -> is_updb_call c = false ->
+  unchanged_protected s (snd (gen_exec s c)).
+Proof. intros s c H Hu. apply protect_respected_l; [exact H|right; exact gen_affix_guarded_true|left; exact Hu]. Qed.
